@@ -188,6 +188,7 @@ func c04(c *Ctx) {
 	c04Sessions(c)
 	c04Churn(c)
 	c04RemoveDuringDispatch(c)
+	c04TwoNamesBackground(c)
 }
 
 func orDash(s string) string {
@@ -552,6 +553,74 @@ func c04RemoveDuringDispatch(c *Ctx) {
 		if bad != "" {
 			desc := fmt.Sprintf("1 handler, then %d one-shot victims, then %d more handlers under one event name; during event k the first handler removes victim k while the others are still being started", events, stable)
 			c.SpecFail("spec", desc, "", bad, map[string]interface{}{"op": "remove-during-dispatch", "events": events, "stable": stable})
+		}
+	}
+}
+
+// c04TwoNamesBackground: background dispatches of consecutive lines overlap in time (each runs on its own goroutine).
+// Handlers under two event names, lines of the two verbs alternating in one burst: every handler must be invoked exactly
+// once for every event of ITS name and never for an event of the other name.
+func c04TwoNamesBackground(c *Ctx) {
+	for s := 0; s < c.Pick(2, 8); s++ {
+		per, events := c.R.Range(2, 40), 600
+		c.Journal(fmt.Sprintf("C04 two names, background: %d handlers per name, %d alternating lines (seed %d)", per, events, c.Seed))
+		sess, err := newSession(nil, nil)
+		if err != nil {
+			c.Res.Inconclusive++
+			continue
+		}
+		names := []string{"AAA", "BBB"}
+		own := make([]int64, 2*per)
+		foreign := make([]int64, 2*per)
+		for ni, name := range names {
+			for h := 0; h < per; h++ {
+				idx := ni*per + h
+				want := name
+				sess.conn.HandleBG(strings.ToLower(name), client.HandlerFunc(func(_ *client.Conn, l *client.Line) {
+					if l.Cmd == want {
+						atomic.AddInt64(&own[idx], 1)
+					} else {
+						atomic.AddInt64(&foreign[idx], 1)
+					}
+				}))
+			}
+		}
+		var sb strings.Builder
+		for k := 0; k < events; k++ {
+			sb.WriteString(fmt.Sprintf(":n!u@h %s me :%d\r\n", names[k%2], k))
+		}
+		sess.srv.Send(sb.String())
+		synced := sess.sync(20 * time.Second)
+		okAll := waitFor(func() bool {
+			for i := range own {
+				if atomic.LoadInt64(&own[i]) < int64(events/2) {
+					return false
+				}
+			}
+			return true
+		}, 3*time.Second)
+		sess.close()
+		c.Res.Traces++
+		c.Res.Evaluations += events
+		c.Dist("two-names-background")
+		if !synced {
+			c.Res.Inconclusive++
+			continue
+		}
+		var diffs []string
+		for i := range own {
+			o, f := atomic.LoadInt64(&own[i]), atomic.LoadInt64(&foreign[i])
+			if o != int64(events/2) || f != 0 {
+				diffs = append(diffs, fmt.Sprintf("handler %d (%s): invoked %d times for its own event (Spec: %d), %d times for an event of the other name (Spec: 0)", i%per, names[i/per], o, events/2, f))
+			}
+		}
+		_ = okAll
+		if len(diffs) > 0 {
+			if len(diffs) > 4 {
+				diffs = append(diffs[:4], fmt.Sprintf("... %d more", len(diffs)-4))
+			}
+			c.SpecFail("spec", fmt.Sprintf("%d background handlers under each of two event names, %d lines of the two verbs alternating in one burst", per, events), "", strings.Join(diffs, " | "),
+				map[string]interface{}{"op": "two-names-background", "handlers_per_name": per, "events": events})
 		}
 	}
 }
